@@ -468,8 +468,37 @@ fn run(ctx: &mut Ctx) {
     run_large::<BootInformationHeader>(ctx, &big, &bases);
     run_large::<HeaderTagHeader>(ctx, &big, &bases);
     run_large::<Multiboot2BasicHeader>(ctx, &big, &bases);
+    // slices of 4 GiB and more: the error precedence must not depend on the slice length's low 32 bits
+    ctx.bound("giant_slices", "per header kind: slice lengths 2^32 - 8, 2^32, 2^32 + 4, 2^32 + 8, 2^32 + 12, 2^32 + 16 x start alignment {0, 4} x declared size {16, 24, 0xFFFFFFFF}; slices in a sparsely backed 8 GiB arena (only the header bytes are touched)");
+    {
+        let giant = Arena::new_sparse((2usize << 32) / 4096);
+        run_giant::<TagHeader>(ctx, &giant);
+        run_giant::<BootInformationHeader>(ctx, &giant);
+        run_giant::<HeaderTagHeader>(ctx, &giant);
+        run_giant::<Multiboot2BasicHeader>(ctx, &giant);
+    }
     call_pairs(ctx, &arena);
     rounding(ctx);
+}
+
+fn run_giant<H: HK>(ctx: &mut Ctx, arena: &Arena) {
+    for len in [(1usize << 32) - 8, 1 << 32, (1 << 32) + 4, (1 << 32) + 8, (1 << 32) + 12, (1 << 32) + 16] {
+        for align in [0usize, 4] {
+            for decl in [16u32, 24, 0xFFFF_FFFF] {
+                let describe = || J::obj().set("part", "giant").set("header_kind", H::NAME).set("slice_len", len).set("declared_size", decl).set("start_alignment", align);
+                ctx.leaf(describe, |ctx| {
+                    ctx.state_direct();
+                    let start = (arena.len() - len - 64) & !7;
+                    let t = H::template();
+                    let mut hdr = t[..H::HDR].to_vec();
+                    wr32(&mut hdr, H::SIZE_OFF, decl);
+                    let p = arena.place_at(start + align, &hdr);
+                    let slice: &[u8] = unsafe { std::slice::from_raw_parts(p, len) };
+                    check_one::<H>(ctx, slice, decl as usize, align);
+                });
+            }
+        }
+    }
 }
 
 fn main() {
